@@ -32,6 +32,15 @@ PROPS = {
     "C11": {
         "engine": "compare",
         "level": "exploration",
+        "design_ref": "DESIGN.md §5 C11",
+        "technique": "deterministic simulation: seeded goroutine scheduler + race detector over the real Compare/DiffPage pipelines, invariants on the result and against a sequential reference run",
+        "level_text": ("Seeded exploration of schedules x inputs x configurations of the real IndividualNodes.Compare pipeline (and html.DiffPage) under a serialising "
+                       "scheduler that decides every goroutine switch, select choice, sync.Map order and clock advance; the Go race detector sees only the program's own "
+                       "synchronisation, so a race is reported on a replayable schedule. Oracles: exactly-once partition, justification of every pair, equality with the "
+                       "sequential run when no scores tie, no race report, bounded liveness. Sampling, not proof."),
+        "level_note": ("Trusts: the instrumenter (validated by running the upstream unit tests on the instrumented copy), the Go race detector, the library's own "
+                       "similarity functions for recomputing scores on cold copies. GOMAXPROCS is irrelevant by construction (one goroutine runs at a time). "
+                       "cmd/gedcom/diff.go glue is not simulated."),
         "rule": ("cases = seeded family-graph document pairs x Jobs x thresholds x notifier x scheduler configuration "
                  "(default / random preemption / PCT, select order, sync.Map order, clock advance); one evaluation = one "
                  "simulated execution of IndividualNodes.Compare (plus html.DiffPage in a quarter of the cases) inside the "
